@@ -76,7 +76,10 @@ def jitter(img, scale, pixelscale=1, oversample=1):
     y = np.fft.fftfreq(img.shape[0])
     xx, yy = np.meshgrid(x, y)
     rho = np.sqrt(xx ** 2 + yy ** 2)
-    kernel = np.exp(-2 * (np.pi * (scale / pixelscale) * oversample * rho) ** 2)
+    # (the extent in samples as a python float: a scale and a pixel scale held in
+    # single or half precision are divided in that precision)
+    extent = float(scale) / float(pixelscale) * float(oversample)
+    kernel = np.exp(-2 * (np.pi * extent * rho) ** 2)
 
     out = np.abs(np.fft.ifft2(np.fft.fft2(img)*kernel))
     return _rescale(out, img)
@@ -169,7 +172,9 @@ def smear(img, distance, angle=None, pixelscale=1, oversample=1):
 
     yy_rot = np.sin(angle) * yy + np.cos(angle) * xx
 
-    kernel = np.sinc(yy_rot * (distance / pixelscale) * oversample)
+    # (the extent in samples as a python float, see jitter)
+    extent = float(distance) / float(pixelscale) * float(oversample)
+    kernel = np.sinc(yy_rot * extent)
 
     out = np.abs(np.fft.ifft2(np.fft.fft2(img)*kernel))
     return _rescale(out, img)
